@@ -231,7 +231,8 @@ where
                     let node_len = bytes.get_u64() as usize;
                     let lane_len = bytes.get_u64() as usize;
 
-                    if bytes.remaining() < host_len + node_len + lane_len + ID_LEN {
+                    let required = total_len(&[host_len, node_len, lane_len, ID_LEN])?;
+                    if bytes.remaining() < required {
                         *state = DecoderState::ReadingRegistration(flags);
                         break Ok(None);
                     }
@@ -284,7 +285,8 @@ where
                     let node_len = bytes.get_u64() as usize;
                     let lane_len = bytes.get_u64() as usize;
 
-                    if bytes.remaining() < host_len + node_len + lane_len {
+                    let required = total_len(&[host_len, node_len, lane_len])?;
+                    if bytes.remaining() < required {
                         *state = DecoderState::ReadingAddressedHeader(flags);
                         break Ok(None);
                     }
@@ -337,6 +339,17 @@ where
             }
         }
     }
+}
+
+fn total_len(parts: &[usize]) -> Result<usize, FrameIoError> {
+    parts
+        .iter()
+        .try_fold(0usize, |acc, n| acc.checked_add(*n))
+        .ok_or_else(|| {
+            FrameIoError::BadFrame(swimos_api::error::InvalidFrame::InvalidHeader {
+                problem: Text::new("Ad-hoc message header contained an invalid length."),
+            })
+        })
 }
 
 fn try_extract_utf8<S: TryFromUtf8Bytes>(
